@@ -415,7 +415,8 @@ def _join_edge(ctx, fn_key, what):
 # ---- Y2: no other edges ----------------------------------------------------------------------
 
 ALLOWED_CAUSALITY_JOIN = {
-    SYNC + "::sync_acq", "rt::thread::Thread::unpark", "rt::thread::Set::unpark", "rt::execution::Execution::new_thread",
+    # (the acquire half of Synchronize is recognised by what it joins - a Synchronize's happens_before - not by its name)
+    "rt::thread::Thread::unpark", "rt::thread::Set::unpark", "rt::execution::Execution::new_thread",
     "rt::thread::Set::seq_cst_fence",
 }
 ALLOWED_CAUSALITY_MUT = {
